@@ -17,8 +17,8 @@ for _k in UNQUOTERS:
 
 BOUNDS = {
     "quick": "every str of length 0..3 (four safely_unquote_*, safely_quote), 0..5 (upper_quoted) over all Unicode scalar values (no surrogates); "
-             "plus, for the unquoters, every string of the token shapes ee, eec (e = escape of a byte >= 0x80 with two symbolic hex digits, c = any code point)",
-    "thorough": "every str of length 0..6 (four safely_unquote_*), 0..5 (safely_quote), 0..7 (upper_quoted) over all Unicode scalar values (no surrogates); token shapes EE, EEc, cEE, eee, EEE, eeee, eeec, ceee, EcE, eece (E = any escape)",
+             "plus, for the unquoters, every string of the token shapes ee, eec, cE, Ec (e = escape of a byte >= 0x80 with two symbolic hex digits, E = any escape, c = any code point)",
+    "thorough": "every str of length 0..6 (four safely_unquote_*), 0..5 (safely_quote), 0..7 (upper_quoted) over all Unicode scalar values (no surrogates); token shapes cE, Ec, EE, EEc, cEE, eee, EEE, eeee, eeec, ceee, EcE, eece (E = any escape)",
 }
 STUBS = ["str.encode('utf-8') / bytes.decode('utf-8','replace'): forking UTF-8 codec model (values.utf8_*)",
          "urllib.parse.quote: per-UTF-8-byte keep/escape model (models.m_quote)",
@@ -73,7 +73,7 @@ def items(tier):
             if n >= 4:
                 it["defer_depth"] = 8
             out.append(it)
-    shapes = ["ee", "eec"] if tier == "quick" else ["EE", "EEc", "cEE", "eee", "EEE", "eeee", "eeec", "ceee", "EcE", "eece"]
+    shapes = ["ee", "eec", "cE", "Ec"] if tier == "quick" else ["cE", "Ec", "EE", "EEc", "cEE", "eee", "EEE", "eeee", "eeec", "ceee", "EcE", "eece"]
     for which in UNQUOTERS:
         for sh in shapes:
             out.append({"fn": "unquoter_tokens", "params": {"which": which, "shape": sh}, "name": "unquote_%s tokens=%s" % (which, sh),
